@@ -71,11 +71,34 @@ func Strings(n int) []string {
 	return out
 }
 
-// BaseVals returns base assignments: all zero, all ones, counting.
+// BaseVals returns base assignments: all zero, all ones, counting; kind 3: the extreme bit
+// patterns (signalling NaNs with a payload for floats, the most negative value for integers),
+// kind 4: negative zero / infinities / sign bit only.
 func BaseVals(d *ref.MsgDef, kind int) []ref.Val {
 	vals := d.ZeroVals()
 	k := uint64(1)
 	for fi, f := range d.Fields {
+		if !vals[fi].IsS && (kind == 3 || kind == 4) {
+			for j := range vals[fi].Bits {
+				sz := uint(ref.TypeSize(f.Type))
+				switch {
+				case f.Type == "float" && kind == 3:
+					vals[fi].Bits[j] = []uint64{0x7F800001, 0xFF800001, 0x7FA00000}[j%3]
+				case f.Type == "double" && kind == 3:
+					vals[fi].Bits[j] = []uint64{0x7FF0000000000001, 0xFFF0000000000001, 0x7FF4000000000000}[j%3]
+				case f.Type == "float":
+					vals[fi].Bits[j] = []uint64{0x80000000, 0x7F800000, 0xFF800000}[j%3]
+				case f.Type == "double":
+					vals[fi].Bits[j] = []uint64{0x8000000000000000, 0x7FF0000000000000, 0xFFF0000000000000}[j%3]
+				default:
+					vals[fi].Bits[j] = uint64(1) << (8*sz - 1) // sign bit only
+					if kind == 4 && sz < 8 {
+						vals[fi].Bits[j] = (uint64(1) << (8*sz - 1)) - 1
+					}
+				}
+			}
+			continue
+		}
 		if vals[fi].IsS {
 			n := f.ArrayLen
 			if n == 0 {
